@@ -167,6 +167,38 @@ func goldenPlan() []GoldenEntry {
 	}
 	add("LZ", "NONE", gen.KRepeat, 400000, 524288, 32, false)
 	add("LZX", "HUFFMAN", gen.KText, 300000, 524288, 64, false)
+	// format limits: the extreme tokens each run / match / symbol coder can emit (appended after the
+	// entries above so that the earlier file numbers stay what they were)
+	lim := func(tr, en string, p1, p2, n int, bs uint) {
+		es = append(es, GoldenEntry{Cfg: gen.Config{Transform: tr, Entropy: en, BlockSize: bs, Jobs: 1, Checksum: 32, HintClass: "absent"},
+			Data: gen.Recipe{Kind: gen.KLimits, Len: n, Seed: uint64(len(es) + 1), P1: p1, P2: p2}})
+	}
+	for _, p2 := range []int{0, 1, 128, 255} {
+		lim("RLT", "NONE", 0, p2, 150000, 262144)  // one run of 65538 + 31*p2 bytes (up to 73443: a single maximal run token)
+		lim("RLT", "HUFFMAN", 1, p2, 400000, 524288) // a run of 73474 + 1000*p2 bytes (split into several tokens)
+		lim("ZRLT", "NONE", 2, p2, 200000, 262144)  // zero run beyond 2^16
+	}
+	for _, tr := range []string{"LZ", "LZX", "LZP", "ROLZ", "ROLZX", "BWT", "BWTS", "RLT+LZ"} {
+		lim(tr, "NONE", 3, 7, 200000, 262144)   // one short period repeated to the end: matches of maximal length
+		lim(tr, "ANS0", 4, 3, 300000, 524288)   // far matches (distance above 64 KiB)
+	}
+	for _, tr := range []string{"MTFT", "RANK", "SRT", "PACK", "ZRLT", "NONE"} {
+		lim(tr, "HUFFMAN", 5, 0, 70000, 131072) // every byte value with a strongly skewed histogram
+		lim(tr, "RANGE", 5, 1, 70000, 131072)
+	}
+	add("TEXT", "NONE", gen.KText, 600000, 1<<20, 32, false)   // dictionary growth well beyond the static part
+	add("TEXT", "ANS1", gen.KText, 100000, 131072, 0, false)   // TEXT flavour selected by the entropy codec name
+	add("TEXT", "CM", gen.KXML, 60000, 65536, 0, false)
+	add("RLT", "ANS1", gen.KRuns, 100000, 131072, 0, false)    // RLT escape selection depends on the entropy codec name
+	add("RLT", "FPAQ", gen.KRuns, 100000, 131072, 0, false)
+	add("UTF", "NONE", gen.KUTF8, 300000, 524288, 32, false)
+	add("UTF", "HUFFMAN", gen.KUTF8, 60000, 65536, 0, false)
+	// last entropy chunk of exactly the raw-copy thresholds and around them, per codec
+	for _, en := range []string{"HUFFMAN", "ANS0", "ANS1", "RANGE", "FPAQ", "CM"} {
+		for _, n := range []int{31, 32, 33, 16384 + 31, 16384 + 32, 16384 + 33, 32768 + 32} {
+			add("NONE", en, gen.KSkewed, n, 65536, 64, false)
+		}
+	}
 	return es
 }
 
